@@ -1,8 +1,9 @@
 /-
   C18 (twistToGoal clause) — exponentiating the twist `twistToGoal(start, goal)` and applying it to `start` gives `goal`,
-  for every pair of rigid transforms whose relative rotation angle is 0 or lies in [1e-6, π).
+  for every pair of rigid transforms whose relative rotation angle is 0 or at least the 1e-6 cut-off (half turns included).
 -/
 import BR.Props.C01
+import BR.Props.C01Half
 import BR.Lemmas.Chain
 import BR.Lemmas.TmLemmas
 import BR.Model.Helpers
@@ -19,42 +20,34 @@ theorem zero_skew : IsSkew (M3.zero : M3 ℝ) := by
   unfold IsSkew
   m3ring
 
-/-- the rotation block of the library's logarithm is skew (identity and generic branches) -/
-theorem log6_R_skew (eq0 : M3 ℝ → Bool) (T : T4 ℝ) (hR : IsRot T.R)
-    (h : 1 ≤ (T.R.trace - 1) / 2 ∨ (-1 < (T.R.trace - 1) / 2 ∧ (T.R.trace - 1) / 2 < 1)) :
-    IsSkew (matrixLog6 eq0 T).R := by
+/-- the rotation block of the library's logarithm is skew (identity, generic and half-turn branches) -/
+theorem log6_R_skew (eq0 : M3 ℝ → Bool) (T : T4 ℝ) (hR : IsRot T.R) : IsSkew (matrixLog6 eq0 T).R := by
   unfold matrixLog6
   simp only
   split
   · exact zero_skew
-  · rcases h with h1 | ⟨hlo, hhi⟩
+  · by_cases h1 : 1 ≤ (T.R.trace - 1) / 2
     · have : matrixLog3 T.R = M3.zero := by
         unfold matrixLog3
         simp only [ofNat_real_one, ofNat_real]
         rw [if_pos h1]
       simp only [this]; exact zero_skew
-    · obtain ⟨w, hw, _⟩ := log3_generic_form T.R hR hlo hhi
-      simp only [hw]; exact hat_skew w
+    · by_cases h2 : (T.R.trace - 1) / 2 ≤ -1
+      · obtain ⟨u, _, hlog⟩ := log3_halfturn_form T.R hR h2
+        simp only [hlog]; exact hat_skew _
+      · obtain ⟨w, hw, _⟩ := log3_generic_form T.R hR (not_le.mp h2) (not_le.mp h1)
+        simp only [hw]; exact hat_skew w
 
 /-- **twistToGoal reaches the goal**: e^{[twistToGoal(A, B)]} · A = B -/
 theorem twistToGoal_reaches (eq0 : M3 ℝ → Bool) (heq0 : ∀ m, eq0 m = true ↔ m3IsZero m) (A B : T4 ℝ)
     (hA : IsRot A.R) (hB : IsRot B.R)
-    (h : 1 ≤ ((B * transInv A).R.trace - 1) / 2 ∨
-      (-1 < ((B * transInv A).R.trace - 1) / 2 ∧ (1e-6 : ℝ) ≤ Real.arccos (((B * transInv A).R.trace - 1) / 2))) :
+    (h : 1 ≤ ((B * transInv A).R.trace - 1) / 2 ∨ (1e-6 : ℝ) ≤ Real.arccos (((B * transInv A).R.trace - 1) / 2)) :
     matrixExp6 (hat6 (twistToGoal eq0 A B)) * A = B := by
   set D := B * transInv A with hD
   have hDR : IsRot D.R := by
     show IsRot (B.R * A.R.T)
     exact isRot_mul hB (isRot_T hA)
-  have hskew : IsSkew (matrixLog6 eq0 D).R := by
-    apply log6_R_skew eq0 D hDR
-    rcases h with h1 | ⟨hlo, hθ⟩
-    · exact Or.inl h1
-    · refine Or.inr ⟨hlo, ?_⟩
-      by_contra hc
-      have : Real.arccos ((D.R.trace - 1) / 2) = 0 := Real.arccos_eq_zero.2 (not_lt.mp hc)
-      rw [this] at hθ; norm_num at hθ
   unfold twistToGoal
-  rw [← hD, hat6_vee6 _ hskew, exp6_log6_below_pi eq0 heq0 D hDR h, hD, T4_mul_assoc, T4_transInv_mul A hA, T4_mul_one]
+  rw [← hD, hat6_vee6 _ (log6_R_skew eq0 D hDR), exp6_log6 eq0 heq0 D hDR h, hD, T4_mul_assoc, T4_transInv_mul A hA, T4_mul_one]
 
 end BR.C18T
